@@ -55,8 +55,8 @@ theorem winv_init : WInv init.1 init.2 ⟨[], []⟩ := by
   · obtain ⟨i, hi, _⟩ := hg; cases hi
   · obtain ⟨i, hi, _⟩ := hg; cases hi
 
-theorem statusOf_append {s : St} {g x : Grp} {st st' : Status} {w' : WPc} {h' q' : Nat} :
-    statusOf { s with w := w', issued := s.issued ++ [⟨g, st⟩], hi := h', seq := q' } x st' ↔
+theorem statusOf_append {s : St} {g x : Grp} {st st' : Status} {w' : WPc} {h' q' : Nat} {ef' : Bool} :
+    statusOf { s with w := w', issued := s.issued ++ [⟨g, st⟩], hi := h', seq := q', everFailed := ef' } x st' ↔
       statusOf s x st' ∨ (x = g ∧ st' = st) := by
   unfold statusOf
   simp only [List.mem_append, List.mem_singleton]
@@ -69,8 +69,8 @@ theorem statusOf_append {s : St} {g x : Grp} {st st' : Status} {w' : WPc} {h' q'
     · exact ⟨⟨g, st⟩, Or.inr rfl, h1.symm, h2.symm⟩
 
 
-theorem statusOf_setStatus {s : St} {g x : Grp} {st st' : Status} {w' : WPc} {h' q' : Nat} :
-    statusOf { s with w := w', issued := setStatus g st s.issued, hi := h', seq := q' } x st' ↔
+theorem statusOf_setStatus {s : St} {g x : Grp} {st st' : Status} {w' : WPc} {h' q' : Nat} {ef' : Bool} :
+    statusOf { s with w := w', issued := setStatus g st s.issued, hi := h', seq := q', everFailed := ef' } x st' ↔
       (x = g ∧ st' = st ∧ g ∈ issuedGrps s) ∨ (x ≠ g ∧ statusOf s x st') := by
   unfold statusOf setStatus issuedGrps
   simp only [List.mem_map]
